@@ -149,7 +149,12 @@ func replay(t *testing.T, r *vr.Run, ck Check, scs []*Scenario, rp Replay) {
 		big.Budget = 1 << 20
 		ScratchBase = filepath.Join(r.Scratch(), "wal-replay")
 		_ = os.MkdirAll(ScratchBase, 0o755)
-		res := Exec(t, &big, ck.Oracle, rp.Path, true)
+		var res ExecResult
+		for n := 0; n < 200; n++ {
+			if res = Exec(t, &big, ck.Oracle, rp.Path, true); !strings.Contains(res.Err, RetryPrefix) {
+				break
+			}
+		}
 		if res.Err != "" {
 			vr.Fatalf("replay: %s", res.Err)
 		}
